@@ -28,7 +28,9 @@
           [Proof.Undo] equals [undoDel] applied to [exp_cached (kill dels s) (C minus dels)], the
           expected cached proof of the kept leaves in the state between the deletions and the
           additions (G1 applied to [kill dels s]); [proof_undo_block]: the statement of C08 for the
-          block follows from [undoDel_spec] (the statement about [undoDel] alone).
+          block follows from [undoDel_spec] (the statement about [undoDel] alone);
+          [proof_undo_block_b] + [ud_small_4]: [undoDel_spec] decided by computation on every
+          four-slot state gives C08 there for ANY additions.
     Not proved: [undoDel_spec] for blocks with deletions (G2); see the end of the file.
 
     Structure
@@ -41,7 +43,8 @@
     - 3  [pruneEdges] / [remapDown] on lists of coordinates;
     - 4  [undoAdd] on graphs of valuations; 5 the theorem; 6 the first block, [Proof.Undo] for
          addition-only blocks; 7 any block, reduced to [undoDel];
-    - 8  the executable check. *)
+    - 8  towards [undoDel]: [ud_targets_spec], the loop over the cached targets on sorted lists;
+    - 9  the executable check. *)
 From Utreexo Require Import Base.Hash Model.Utils Model.UtilsFast Model.Verify Model.ProofOps
   Model.ProofUpdate Spec.Forest Spec.Oracle Spec.Geometry Spec.Term
   Proofs.UtilsGeom Proofs.UtilsGeom2 Proofs.SpecBasics Proofs.StumpAdd Proofs.LayoutStruct
@@ -1657,7 +1660,236 @@ Proof.
 Qed.
 Print Assumptions proof_undo_block_b.
 
-(** * 8. The full statement of C08 for [Proof.Undo], as an executable check (G0)
+(** * 8. Towards [undoDel]: the loop over the cached targets
+
+    [ud_targets] ("Look for the sibling in the cached targets") indexes the slice that its body
+    re-sorts in place.  On a strictly sorted list whose moved positions only decrease and stay
+    distinct, every element is nevertheless visited exactly once: the result is the sorted list of the
+    moved elements ([ud_targets_spec]); the block target is recorded once per moved element. *)
+
+Section ListGen.
+  Context {X : Type}.
+  Implicit Types l : list X.
+  Lemma In_firstn l i (x : X) : In x (firstn i l) -> In x l.
+  Proof. intros Hx. rewrite <- (firstn_skipn i l). apply in_or_app. left. exact Hx. Qed.
+  Lemma In_skipn l i (x : X) : In x (skipn i l) -> In x l.
+  Proof. intros Hx. rewrite <- (firstn_skipn i l). apply in_or_app. right. exact Hx. Qed.
+
+  Lemma firstn_S_nth l i e : nth_error l i = Some e -> firstn (S i) l = firstn i l ++ [e].
+  Proof.
+    revert i. induction l as [|y l IH]; intros i Hn; [destruct i; discriminate|]. destruct i as [|i].
+    - cbn in Hn. injection Hn as <-. reflexivity.
+    - cbn [nth_error] in Hn. cbn [firstn app]. f_equal. exact (IH i Hn).
+  Qed.
+
+  Lemma skipn_nth l i e : nth_error l i = Some e -> skipn i l = e :: skipn (S i) l.
+  Proof.
+    revert i. induction l as [|y l IH]; intros i Hn; [destruct i; discriminate|]. destruct i as [|i].
+    - cbn in Hn. injection Hn as <-. reflexivity.
+    - cbn [nth_error] in Hn. cbn [skipn]. exact (IH i Hn).
+  Qed.
+End ListGen.
+
+Section SortedNth.
+  Context {A : Type}.
+  Implicit Types l : list (N * A).
+
+  Definition below (k : N) l : nat := length (filter (fun x : N * A => fst x <? k) l).
+
+  Lemma below_perm k l l' : Permutation l l' -> below k l = below k l'.
+  Proof. intros Hp. unfold below. apply Permutation_length, cc_filter_perm, Hp. Qed.
+
+  Lemma below_app k l l' : below k (l ++ l') = (below k l + below k l')%nat.
+  Proof. unfold below. rewrite filter_app, app_length. reflexivity. Qed.
+
+  Lemma below_all k l : (forall x, In x l -> fst x < k) -> below k l = length l.
+  Proof.
+    intros Hl. unfold below. rewrite po_filter_all; [reflexivity|].
+    intros x Hx. apply N.ltb_lt, Hl, Hx.
+  Qed.
+
+  Lemma below_none k l : (forall x, In x l -> k <= fst x) -> below k l = 0%nat.
+  Proof.
+    intros Hl. unfold below. induction l as [|x l IH]; [reflexivity|]. cbn [filter].
+    destruct (N.ltb_spec (fst x) k) as [Hlt|_].
+    - pose proof (Hl x (or_introl eq_refl)). lia.
+    - apply IH. intros y Hy. apply Hl. right. exact Hy.
+  Qed.
+
+  (** in a strictly sorted list an element sits at the index that counts the smaller keys *)
+  Lemma nth_error_sorted l : SSlt (map fst l) -> forall e, In e l ->
+    nth_error l (below (fst e) l) = Some e.
+  Proof.
+    induction l as [|x l IH]; intros Hs e He; [destruct He|]. cbn [map] in Hs.
+    destruct (po_SS_inv _ _ _ Hs) as [Hs' Hx]. unfold below. cbn [filter].
+    destruct He as [<-|He].
+    - rewrite N.ltb_irrefl. fold (below (fst x) l). rewrite below_none; [reflexivity|].
+      intros y Hy. specialize (Hx (fst y) (in_map _ _ _ Hy)). lia.
+    - pose proof (Hx (fst e) (in_map _ _ _ He)) as Hlt.
+      destruct (N.ltb_spec (fst x) (fst e)) as [_|Hc]; [|lia]. cbn [length nth_error].
+      exact (IH Hs' e He).
+  Qed.
+
+  Lemma SSlt_firstn_lt l i e : SSlt (map fst l) -> nth_error l i = Some e ->
+    (forall x, In x (firstn i l) -> fst x < fst e) /\ (forall x, In x (skipn (S i) l) -> fst e < fst x).
+  Proof.
+    revert i. induction l as [|y l IH]; intros i Hs Hn; [destruct i; discriminate|]. cbn [map] in Hs.
+    destruct (po_SS_inv _ _ _ Hs) as [Hs' Hy]. destruct i as [|i].
+    - cbn [nth_error] in Hn. injection Hn as <-. cbn [firstn skipn]. split; [intros x []|].
+      intros x Hx. apply Hy, in_map, Hx.
+    - cbn [nth_error] in Hn. destruct (IH i Hs' Hn) as [I1 I2]. cbn [firstn skipn]. split; [|exact I2].
+      intros x [<-|Hx]; [|exact (I1 x Hx)]. apply Hy, in_map. exact (nth_error_In _ _ Hn).
+  Qed.
+
+End SortedNth.
+
+Section UdLoops.
+  Variable H : Type.
+  Variable HO : ops H.
+  Local Notation hp := (hp H).
+  Variables (bt : N) (bh : H) (sibPos n total : N).
+
+  (** the test and the move of one iteration, on positions *)
+  Definition ud_test (p : N) : bool :=
+    (subtree_of p n =? subtree_of bt n) && (isAncestor sibPos p total || (sibPos =? p)).
+  Definition ud_mv (p : N) : N := if ud_test p then calcPrevPosition p bt total else p.
+  Definition ud_mve (e : hp) : hp := (ud_mv (fst e), snd e).
+
+  Lemma set_pos_split (A B : list hp) e p : set_pos (length A) p (A ++ e :: B) = A ++ (p, snd e) :: B.
+  Proof. induction A as [|a A IH]; [reflexivity|]. cbn [length app set_pos]. f_equal. exact IH. Qed.
+
+  Variable orig : list hp.
+  Hypothesis Hso : SSlt (map fst orig).
+  Hypothesis Hlt : forall e, In e orig -> ud_test (fst e) = true -> ud_mv (fst e) < fst e.
+  (** the positions stay distinct while the list is processed *)
+  Hypothesis Hnd : forall i, NoDup (map fst (map ud_mve (firstn i orig) ++ skipn i orig)).
+
+  Lemma ud_mv_le e : In e orig -> ud_mv (fst e) <= fst e.
+  Proof.
+    intros He. destruct (ud_test (fst e)) eqn:Et; [pose proof (Hlt e He Et); lia|].
+    unfold ud_mv. rewrite Et. lia.
+  Qed.
+
+  (** the element under the cursor is the next unprocessed one *)
+  Lemma ud_cursor (G tw : list hp) i (e : hp) : SSlt (map fst tw) ->
+    Permutation tw (map ud_mve (firstn i orig) ++ skipn i orig ++ G) ->
+    nth_error orig i = Some e -> (forall g, In g G -> fst e < fst g) ->
+    @nth_error hp tw i = Some e.
+  Proof.
+    intros Hs Hp Hn HG.
+    destruct (SSlt_firstn_lt orig i e Hso Hn) as [Hb Ha].
+    assert (He : In e tw).
+    { apply (Permutation_in _ (Permutation_sym Hp)), in_or_app. right. apply in_or_app. left.
+      rewrite (skipn_nth orig i e Hn). left. reflexivity. }
+    assert (Eb : below (fst e) tw = i).
+    { rewrite (below_perm (fst e) _ _ Hp). rewrite (skipn_nth orig i e Hn), !below_app.
+      rewrite below_all.
+      2:{ intros x Hx. apply in_map_iff in Hx as (y & <- & Hy). cbn [ud_mve fst].
+          pose proof (ud_mv_le y (In_firstn _ _ _ Hy)). pose proof (Hb y Hy). lia. }
+      change (e :: skipn (S i) orig) with ([e] ++ skipn (S i) orig). rewrite below_app.
+      rewrite (below_none (fst e) [e]) by (intros x [<-|[]]; lia).
+      rewrite (below_none (fst e) (skipn (S i) orig)) by (intros x Hx; pose proof (Ha x Hx); lia).
+      rewrite (below_none (fst e) G) by (intros x Hx; pose proof (HG x Hx); lia).
+      rewrite map_length, firstn_length_le; [lia|].
+      apply Nat.lt_le_incl, nth_error_Some. rewrite Hn. discriminate. }
+    rewrite <- Eb. exact (nth_error_sorted tw Hs e He).
+  Qed.
+
+  (** one step of the permutation *)
+  Lemma ud_step_perm (G tw : list hp) i e : Permutation tw (map ud_mve (firstn i orig) ++ skipn i orig ++ G) ->
+    nth_error orig i = Some e -> nth_error tw i = Some e ->
+    Permutation (set_pos i (ud_mv (fst e)) tw) (map ud_mve (firstn (S i) orig) ++ skipn (S i) orig ++ G).
+  Proof.
+    intros Hp Hn Ht.
+    destruct (nth_error_split tw i Ht) as (A & B & -> & <-).
+    rewrite set_pos_split. rewrite (skipn_nth orig _ e Hn) in Hp.
+    rewrite (firstn_S_nth orig _ e Hn), map_app. cbn [map]. rewrite <- app_assoc. cbn [app].
+    change (ud_mve e) with (ud_mv (fst e), snd e).
+    apply Permutation_sym in Hp. cbn [app] in Hp.
+    apply Permutation_sym. apply Permutation_elt.
+    apply Permutation_app_inv in Hp. exact Hp.
+  Qed.
+
+  Lemma ud_targets_S_some k i (tw np : list hp) (e : hp) : @nth_error hp tw i = Some e ->
+    ud_targets (S k) i tw np bt bh sibPos n total
+    = if ud_test (fst e)
+      then ud_targets k (S i) (sortK (set_pos i (ud_mv (fst e)) tw)) (sortK (np ++ [(bt, bh)]))
+                      bt bh sibPos n total
+      else ud_targets k (S i) tw np bt bh sibPos n total.
+  Proof.
+    intros Hn. cbn [ud_targets]. rewrite Hn. cbv iota. unfold ud_mv, ud_test.
+    destruct (subtree_of (fst e) n =? subtree_of bt n); cbn [negb andb]; [|reflexivity].
+    destruct (isAncestor sibPos (fst e) total || (sibPos =? fst e)); reflexivity.
+  Qed.
+
+  Lemma ud_targets_S_none k i (tw np : list hp) : @nth_error hp tw i = None ->
+    ud_targets (S k) i tw np bt bh sibPos n total = (tw, np).
+  Proof. intros Hn. cbn [ud_targets]. rewrite Hn. reflexivity. Qed.
+
+  (** "Look for the sibling in the cached targets" *)
+  Lemma ud_targets_spec : forall k i tw np, (length orig <= i + k)%nat -> (i <= length orig)%nat ->
+    SSlt (map fst tw) -> Permutation tw (map ud_mve (firstn i orig) ++ skipn i orig) ->
+    exists tw' np', ud_targets k i tw np bt bh sibPos n total = (tw', np') /\
+      SSlt (map fst tw') /\ Permutation tw' (map ud_mve orig) /\
+      (forall e, In e np' <-> In e np \/ (e = (bt, bh) /\ exists x, In x (skipn i orig) /\ ud_test (fst x) = true)).
+  Proof.
+    induction k as [|k IH]; intros i tw np Hk Hi Hs Hp.
+    - assert (Ei : i = length orig) by lia. subst i. rewrite firstn_all, skipn_all, app_nil_r in Hp.
+      exists tw, np. split; [reflexivity|]. split; [exact Hs|]. split; [exact Hp|].
+      intros e. rewrite skipn_all. split; [auto|]. intros [He|(_ & x & [] & _)]. exact He.
+    - destruct (nth_error orig i) as [e|] eqn:Hn.
+      + assert (Ht : @nth_error hp tw i = Some e).
+        { apply (ud_cursor [] tw i e Hs); [rewrite app_nil_r; exact Hp|exact Hn|intros g []]. }
+        assert (Hstep : Permutation (set_pos i (ud_mv (fst e)) tw)
+                          (map ud_mve (firstn (S i) orig) ++ skipn (S i) orig)).
+        { pose proof (ud_step_perm [] tw i e ltac:(rewrite app_nil_r; exact Hp) Hn Ht) as Hq.
+          rewrite app_nil_r in Hq. exact Hq. }
+        assert (HSi : (S i <= length orig)%nat) by (apply nth_error_Some; rewrite Hn; discriminate).
+        assert (Hskip : forall x, In x (skipn i orig) <-> x = e \/ In x (skipn (S i) orig)).
+        { intros x. rewrite (skipn_nth orig i e Hn). cbn [In]. split; intros [A|B]; auto. }
+        destruct (ud_test (fst e)) eqn:Et.
+        * (* moved *)
+          assert (Emv : calcPrevPosition (fst e) bt total = ud_mv (fst e)).
+          { unfold ud_mv. rewrite Et. reflexivity. }
+          destruct (IH (S i) (sortK (set_pos i (ud_mv (fst e)) tw)) (sortK (np ++ [(bt, bh)]))) as (tw' & np' & E & A & B & C).
+          -- lia.
+          -- exact HSi.
+          -- apply cc_sortK_SSlt. eapply Permutation_NoDup; [|exact (Hnd (S i))].
+             apply Permutation_map, Permutation_sym. exact Hstep.
+          -- eapply Permutation_trans; [apply RefTheory.sortK_perm|exact Hstep].
+          -- exists tw', np'. split; [|split; [exact A|split; [exact B|]]].
+             ++ rewrite (ud_targets_S_some k i tw np e Ht), Et. exact E.
+             ++ intros x. rewrite C, RefTheory.sortK_In, in_app_iff. cbn [In]. split.
+                ** intros [[Hx|[<-|[]]]|(-> & y & Hy & Hty)]; [left; exact Hx| |].
+                   --- right. split; [reflexivity|]. exists e. split; [apply Hskip; left; reflexivity|exact Et].
+                   --- right. split; [reflexivity|]. exists y. split; [apply Hskip; right; exact Hy|exact Hty].
+                ** intros [Hx|(-> & y & Hy & Hty)]; [left; left; exact Hx|]. left. right. left. reflexivity.
+        * (* not moved *)
+          assert (Emv : ud_mv (fst e) = fst e) by (unfold ud_mv; rewrite Et; reflexivity).
+          assert (Hsame : set_pos i (ud_mv (fst e)) tw = tw).
+          { destruct (nth_error_split tw i Ht) as (A & B & -> & <-). rewrite set_pos_split, Emv.
+            destruct e; reflexivity. }
+          rewrite Hsame in Hstep.
+          destruct (IH (S i) tw np ltac:(lia) HSi Hs Hstep) as (tw' & np' & E & A & B & C).
+          exists tw', np'. split; [|split; [exact A|split; [exact B|]]].
+          -- rewrite (ud_targets_S_some k i tw np e Ht), Et. exact E.
+          -- intros x. rewrite C. split.
+             ++ intros [Hx|(-> & y & Hy & Hty)]; [left; exact Hx|]. right. split; [reflexivity|].
+                exists y. split; [apply Hskip; right; exact Hy|exact Hty].
+             ++ intros [Hx|(-> & y & Hy & Hty)]; [left; exact Hx|]. apply Hskip in Hy as [->|Hy]; [congruence|].
+                right. split; [reflexivity|]. exists y. auto.
+      + (* past the end *)
+        assert (Hlen : (length orig <= i)%nat) by (apply nth_error_None; exact Hn).
+        assert (Ei : i = length orig) by lia. subst i. rewrite firstn_all, skipn_all, app_nil_r in Hp.
+        assert (Ht : @nth_error hp tw (length orig) = None).
+        { apply nth_error_None. apply Nat.eq_le_incl.
+          exact (eq_trans (Permutation_length Hp) (map_length ud_mve orig)). }
+        exists tw, np. split; [exact (ud_targets_S_none k _ tw np Ht)|]. split; [exact Hs|]. split; [exact Hp|].
+        intros e. rewrite skipn_all. split; [auto|]. intros [He|(_ & x & [] & _)]. exact He.
+  Qed.
+End UdLoops.
+
+(** * 9. The full statement of C08 for [Proof.Undo], as an executable check (G0)
 
     [un_check s C dels adds rem]: [s] the state before the block, [C] the cached set before it,
     [dels] the deleted leaves, [adds] the added leaves, [rem] the indexes of the remembered additions.
@@ -1755,8 +1987,10 @@ Qed.
     positions); (ii) the loops [ud_targets] / [ud_proof] of [ud_blocks]: on coordinates one
     iteration is [unlift1] of section 1 for every element in the tree of the target (the
     [DetectOffset] test is [ProofUpdateSpec.pu_same_subtree]), but the Go loops index a slice that the
-    body re-sorts in place ([ud_targets]: the moved element only moves towards the front, so every
-    element is visited once) and, in [ud_proof], write at the OLD index into the slice that
+    body re-sorts in place ([ud_targets]: done, [ud_targets_spec] of section 8 - the moved element only
+    moves towards the front, so every element is visited once; the block target is appended to
+    [newProofs] once per moved target, so that list has duplicates, which only the two-pointer walk
+    of [getHashAndPosSubset] removes) and, in [ud_proof], write at the OLD index into the slice that
     [mergeSortedHashAndPos] has just replaced (the inserted parent position sorts behind every
     position below it, so the indexes of the positions still to be moved are unchanged; the hash
     stored with it is wrong whenever the moved position is not the sibling itself and is repaired
